@@ -259,13 +259,18 @@ def classify_mismatch(spec, w, i, m):
     return "layout-differs"
 
 
-def evaluate(chk, cases, label_):
+def evaluate(chk, cases, label_, first_width=None):
+    """first_width: the object is rendered once at that width before the render under test (a container that
+    was already shown and is shown again at another width must lay out, fit and refuse exactly as a fresh one)."""
     bad = 0
     for off in range(0, len(cases), 4000):
         part = cases[off:off + 4000]
         res_m = rc.model_render(part)
         for (spec, w), m in zip(part, res_m):
-            i = rc.impl_render(rc.build(spec), w)
+            obj = rc.build(spec)
+            if first_width is not None:
+                rc.impl_render(obj, first_width)
+            i = rc.impl_render(obj, w)
             chk.count()
             chk.hist("stream=" + label_)
             chk.hist("impl=" + {0: "lines", 1: "ValueError", 9: "other-exception"}[i[0]])
@@ -317,6 +322,10 @@ def run(chk, tier):
     evaluate(chk, gen_nested(tier, chk.rng), "nested")
     evaluate(chk, gen_random(tier, chk.rng), "random")
     evaluate(chk, gen_malformed(chk.rng), "malformed")
+    # shown before at a generous width, then again at the width under test (re-rendered objects)
+    again = gen_random(tier, chk.rng)
+    evaluate(chk, again[:len(again) // 3], "shown-before-at-60", first_width=60)
+    evaluate(chk, ex[::7], "exhaustive-shown-before-at-47", first_width=47)
 
 
 def replay(path):
